@@ -11,7 +11,9 @@ S=/tmp/fv-mut-${SLOT:-0}
 if [ ! -d "$S/repo" ]; then mkdir -p "$S"; git -C /repo worktree add -q --detach "$S/repo" HEAD || exit 2; fi
 git -C "$S/repo" checkout -q --detach "$(git -C /repo rev-parse HEAD)" && git -C "$S/repo" checkout -q -- . && git -C "$S/repo" clean -qfd
 git -C "$S/repo" apply "$PATCH" || { echo "patch does not apply" >&2; exit 2; }
-mkdir -p "$S/harness"; rsync -a --delete --exclude target --exclude 'target.build-*' harness/ "$S/harness/"
+# harness sources as committed (HEAD), so that half-edited working files never get in the way
+mkdir -p "$S/harness" "$S/src.tmp"; rm -rf "$S/src.tmp"/*; git archive HEAD harness | tar -x -C "$S/src.tmp"
+rsync -a --delete --exclude target --exclude 'target.build-*' "$S/src.tmp/harness/" "$S/harness/"
 sed -i "s#path = \"/repo\"#path = \"$S/repo\"#" "$S/harness/Cargo.toml"
 export FV_HARNESS_DIR="$S/harness" FV_OUT_DIR="$S/out"
 rm -rf "$FV_OUT_DIR"; mkdir -p "$FV_OUT_DIR/evidence" "$FV_OUT_DIR/replays"; cp known_findings.txt "$FV_OUT_DIR/" 2>/dev/null
